@@ -87,43 +87,61 @@ Proof.
   - destruct (frames w) as [|g t]; [discriminate|]. intros H. injection H as <- <-. cbn. auto.
 Qed.
 
+Lemma queue_nonempty_false w : queue_nonempty w = false -> qbytes w = [] /\ frames w = [] /\ curf w = None.
+Proof.
+  unfold queue_nonempty, qbytes. destruct (curf w); [discriminate|].
+  destruct (frames w); [auto|discriminate].
+Qed.
+
+(* the state in which a frame that could not be written (completely) is kept *)
+Lemma keep_state w f w0 :
+  take_frame w = Some (f, w0) -> WInv w ->
+  WInv (mkW (frames w0) (Some f) (pbytes w0)) /\ qbytes (mkW (frames w0) (Some f) (pbytes w0)) = qbytes w.
+Proof.
+  intros Ht Hinv. apply take_frame_some in Ht. destruct Ht as (Hq & Hc & Hp).
+  unfold WInv, qbytes in *. cbn [curf frames pbytes]. rewrite Hp, Hinv, Hq. auto.
+Qed.
+
+(* poll_flush, whatever the carrier does (stalls, errors, zero-length accepts): bytes only move
+   from the head of the queue to the carrier; Ready(Ok) only with nothing queued. *)
 Lemma flush_spec : forall script w sent r w' sent' script',
   flush script w sent = (r, w', sent', script') ->
   WInv w ->
   (exists d, sent' = sent ++ d) /\
-  (r <> WIo -> WInv w' /\ sent' ++ qbytes w' = sent ++ qbytes w) /\
+  WInv w' /\ sent' ++ qbytes w' = sent ++ qbytes w /\
   (r = WOk -> frames w' = [] /\ curf w' = None /\ pbytes w' = 0).
 Proof.
   induction script as [|ev s IH]; intros w sent r w' sent' script' H Hinv.
   - cbn [flush] in H. destruct (take_frame w) as [[f w0]|] eqn:Ht.
-    + injection H as <- <- <- <-. apply take_frame_some in Ht. destruct Ht as (Hq & Hc & Hp).
-      split; [exists []; now rewrite app_nil_r|]. split; [|discriminate].
-      intros _. unfold WInv, qbytes in *. cbn [curf frames pbytes]. rewrite Hp, Hinv, Hq. auto.
-    + injection H as <- <- <- <-. split; [exists []; now rewrite app_nil_r|]. split; [auto|discriminate].
+    + injection H as <- <- <- <-. destruct (keep_state _ _ _ Ht Hinv) as (Hk1 & Hk2).
+      split; [exists []; now rewrite app_nil_r|]. split; [exact Hk1|]. split; [now rewrite Hk2|discriminate].
+    + injection H as <- <- <- <-. split; [exists []; now rewrite app_nil_r|]. repeat split; auto; discriminate.
   - cbn [flush] in H. destruct (take_frame w) as [[f w0]|] eqn:Ht.
-    + apply take_frame_some in Ht. destruct Ht as (Hq & Hc & Hp).
+    + destruct (keep_state _ _ _ Ht Hinv) as (Hk1 & Hk2).
       destruct ev as [|n|].
-      * injection H as <- <- <- <-. split; [exists []; now rewrite app_nil_r|]. split; [|discriminate].
-        intros _. unfold WInv, qbytes in *. cbn [curf frames pbytes]. rewrite Hp, Hinv, Hq. auto.
-      * apply IH in H.
-        -- destruct H as ((d & Hd) & Hk & Hok). split.
+      * injection H as <- <- <- <-. split; [exists []; now rewrite app_nil_r|]. split; [exact Hk1|].
+        split; [now rewrite Hk2|discriminate].
+      * destruct ((N.min n (lenN f) =? 0) && negb (is_nil f)) eqn:Hz.
+        { injection H as <- <- <- <-. split; [exists []; now rewrite app_nil_r|]. split; [exact Hk1|].
+          split; [now rewrite Hk2|discriminate]. }
+        apply take_frame_some in Ht. destruct Ht as (Hq & Hc & Hp).
+        assert (Hf : (match (if is_nil (dropN (N.min n (lenN f)) f) then None else Some (dropN (N.min n (lenN f)) f)) with
+                      | Some g => g | None => [] end) = dropN (N.min n (lenN f)) f).
+        { destruct (dropN (N.min n (lenN f)) f) eqn:E; reflexivity. }
+        apply IH in H.
+        -- destruct H as ((d & Hd) & Hi & Hs & Hok). split.
            ++ exists (takeN (N.min n (lenN f)) f ++ d). now rewrite Hd, app_assoc.
-           ++ split; [|exact Hok]. intros Hr. destruct (Hk Hr) as (Hi & Hs). split; [exact Hi|].
+           ++ split; [exact Hi|]. split; [|exact Hok].
               rewrite Hs, Hq. unfold qbytes at 1. cbn [curf frames].
-              assert (Hf : (match (if is_nil (dropN (N.min n (lenN f)) f) then None else Some (dropN (N.min n (lenN f)) f)) with
-                            | Some g => g | None => [] end) = dropN (N.min n (lenN f)) f).
-              { destruct (dropN (N.min n (lenN f)) f) eqn:E; reflexivity. }
               rewrite Hf, <- !app_assoc. f_equal. rewrite app_assoc, takeN_dropN. reflexivity.
         -- unfold WInv, qbytes in *. cbn [curf frames pbytes].
-           assert (Hf : (match (if is_nil (dropN (N.min n (lenN f)) f) then None else Some (dropN (N.min n (lenN f)) f)) with
-                         | Some g => g | None => [] end) = dropN (N.min n (lenN f)) f).
-           { destruct (dropN (N.min n (lenN f)) f) eqn:E; reflexivity. }
            rewrite Hf, Hp, Hinv, Hq, !lenN_app, lenN_dropN. lia.
-      * injection H as <- <- <- <-. split; [exists []; now rewrite app_nil_r|]. split; [congruence|discriminate].
+      * injection H as <- <- <- <-. split; [exists []; now rewrite app_nil_r|]. split; [exact Hk1|].
+        split; [now rewrite Hk2|discriminate].
     + apply take_frame_none in Ht. destruct Ht as (Hc & Hf & Hq).
       assert (Hz : pbytes w = 0) by (unfold WInv in Hinv; rewrite Hinv, Hq; reflexivity).
       destruct ev as [|n|]; injection H as <- <- <- <-;
-        (split; [exists []; now rewrite app_nil_r|]); (split; [auto|]); try discriminate; auto.
+        (split; [exists []; now rewrite app_nil_r|]); repeat split; auto; discriminate.
 Qed.
 
 Lemma start_send_spec c w m r w' :
@@ -149,76 +167,202 @@ Lemma poll_ready_spec bp script w sent r w' sent' script' :
   poll_ready bp script w sent = (r, w', sent', script') ->
   WInv w ->
   (exists d, sent' = sent ++ d) /\
-  (r <> WIo -> WInv w' /\ sent' ++ qbytes w' = sent ++ qbytes w) /\
+  WInv w' /\ sent' ++ qbytes w' = sent ++ qbytes w /\
   (r = WOk -> 0 < bp -> pbytes w' < bp).
 Proof.
   unfold poll_ready. destruct (bp <=? pbytes w) eqn:Hb; intros H Hinv.
-  - apply flush_spec in H; [|exact Hinv]. destruct H as (Hd & Hk & Hok).
-    split; [exact Hd|]. split; [exact Hk|]. intros Hr Hpos. destruct (Hok Hr) as (_ & _ & Hz). lia.
-  - injection H as <- <- <- <-. split; [exists []; now rewrite app_nil_r|]. split; [auto|]. intros _ _. lia.
+  - apply flush_spec in H; [|exact Hinv]. destruct H as (Hd & Hi & Hk & Hok).
+    split; [exact Hd|]. split; [exact Hi|]. split; [exact Hk|].
+    intros Hr Hpos. destruct (Hok Hr) as (_ & _ & Hz). lia.
+  - injection H as <- <- <- <-. split; [exists []; now rewrite app_nil_r|]. repeat split; auto. intros _ _. lia.
+Qed.
+
+Lemma flush_res : forall script w sent r w' sent' script',
+  flush script w sent = (r, w', sent', script') -> r = WPend \/ r = WOk \/ r = WIo.
+Proof.
+  induction script as [|ev s IH]; intros w sent r w' sent' script' H; cbn [flush] in H.
+  - destruct (take_frame w) as [[f w0]|]; injection H as <- <- <- <-; auto.
+  - destruct (take_frame w) as [[f w0]|].
+    + destruct ev as [|n|]; try (injection H as <- <- <- <-; auto).
+      destruct ((N.min n (lenN f) =? 0) && negb (is_nil f)); [injection H as <- <- <- <-; auto|eapply IH; eauto].
+    + destruct ev as [|n|]; injection H as <- <- <- <-; auto.
+Qed.
+
+Lemma flush_all_res : forall fuel script w sent np r np' w' sent' script',
+  flush_all fuel script w sent np = (r, np', w', sent', script') -> r = WPend \/ r = WOk \/ r = WIo.
+Proof.
+  induction fuel as [|fu IH]; intros script w sent np r np' w' sent' script' H; cbn [flush_all] in H.
+  - injection H as <- <- <- <- <-. auto.
+  - destruct (flush script w sent) as [[[r1 w1] s1] sc1] eqn:E. apply flush_res in E.
+    destruct r1; try (injection H as <- <- <- <- <-; exact E).
+    destruct (is_nil sc1); [injection H as <- <- <- <- <-; auto|eapply IH; eauto].
+Qed.
+
+(* SinkExt::flush(..).await *)
+Lemma flush_all_spec : forall fuel script w sent np r np' w' sent' script',
+  flush_all fuel script w sent np = (r, np', w', sent', script') ->
+  WInv w ->
+  WInv w' /\ sent' ++ qbytes w' = sent ++ qbytes w /\
+  (r = WOk -> frames w' = [] /\ curf w' = None /\ pbytes w' = 0).
+Proof.
+  induction fuel as [|fu IH]; intros script w sent np r np' w' sent' script' H Hinv.
+  - cbn [flush_all] in H. injection H as <- <- <- <- <-. repeat split; auto; discriminate.
+  - cbn [flush_all] in H. destruct (flush script w sent) as [[[r1 w1] s1] sc1] eqn:E.
+    apply flush_spec in E; [|exact Hinv]. destruct E as (_ & Hi1 & Hq1 & Hok1).
+    destruct r1.
+    + destruct (is_nil sc1).
+      * injection H as <- <- <- <- <-. repeat split; auto; discriminate.
+      * apply IH in H; [|exact Hi1]. destruct H as (Hi & Hq & Hok). split; [exact Hi|]. split; [now rewrite Hq, Hq1|exact Hok].
+    + injection H as <- <- <- <- <-. auto.
+    + injection H as <- <- <- <- <-. repeat split; auto; discriminate.
+    + injection H as <- <- <- <- <-. repeat split; auto; discriminate.
+    + injection H as <- <- <- <- <-. repeat split; auto; discriminate.
 Qed.
 
 (* ---- send_framed ---- *)
 Lemma sf_run_spec : forall ident script bufs sent np r np' sent' script',
   sf_run ident script bufs sent np = (r, np', sent', script') ->
-  exists d e, sent' = sent ++ d /\ concat bufs = d ++ e /\ (r = WOk -> e = []).
+  r <> WDenied /\ exists d e, sent' = sent ++ d /\ concat bufs = d ++ e /\ (r = WOk -> e = []).
 Proof.
   induction script as [|ev s IH]; intros bufs sent np r np' sent' script' H.
-  - cbn [sf_run] in H. injection H as <- <- <- <-. exists [], (concat bufs).
+  - cbn [sf_run] in H. injection H as <- <- <- <-. split; [discriminate|]. exists [], (concat bufs).
     rewrite app_nil_r. repeat split. discriminate.
   - cbn [sf_run] in H. destruct bufs as [|b bufs'].
     + destruct ev as [|n|].
       * destruct (is_nil s).
-        -- injection H as <- <- <- <-. exists [], []. rewrite app_nil_r. repeat split.
+        -- injection H as <- <- <- <-. split; [discriminate|]. exists [], []. rewrite app_nil_r. repeat split.
         -- apply IH in H. exact H.
-      * injection H as <- <- <- <-. exists [], []. rewrite app_nil_r. repeat split.
-      * injection H as <- <- <- <-. exists [], []. rewrite app_nil_r. repeat split.
+      * injection H as <- <- <- <-. split; [discriminate|]. exists [], []. rewrite app_nil_r. repeat split.
+      * injection H as <- <- <- <-. split; [discriminate|]. exists [], []. rewrite app_nil_r. repeat split.
     + destruct ev as [|n|].
       * destruct (is_nil s).
-        -- injection H as <- <- <- <-. exists [], (concat (b :: bufs')). rewrite app_nil_r. repeat split. discriminate.
+        -- injection H as <- <- <- <-. split; [discriminate|]. exists [], (concat (b :: bufs')). rewrite app_nil_r. repeat split. discriminate.
         -- apply IH in H. exact H.
       * destruct (N.min n (lenN b) =? 0) eqn:Hk.
-        -- injection H as <- <- <- <-. exists [], (concat (b :: bufs')). rewrite app_nil_r. repeat split.
+        -- injection H as <- <- <- <-. split; [destruct ident; discriminate|].
+           exists [], (concat (b :: bufs')). rewrite app_nil_r. repeat split.
            destruct ident; discriminate.
-        -- apply IH in H. destruct H as (d & e & Hs & Hc & Hok).
+        -- apply IH in H. destruct H as (Hnd & d & e & Hs & Hc & Hok). split; [exact Hnd|].
            exists (takeN (N.min n (lenN b)) b ++ d), e. split; [now rewrite Hs, app_assoc|]. split; [|exact Hok].
            cbn [concat]. rewrite <- (takeN_dropN (N.min n (lenN b)) b) at 1. rewrite <- !app_assoc. f_equal.
            rewrite <- Hc. destruct (dropN (N.min n (lenN b)) b) eqn:E; cbn [is_nil concat]; reflexivity.
-      * injection H as <- <- <- <-. exists [], (concat (b :: bufs')). rewrite app_nil_r. repeat split.
+      * injection H as <- <- <- <-. split; [destruct ident; discriminate|].
+        exists [], (concat (b :: bufs')). rewrite app_nil_r. repeat split.
         destruct ident; discriminate.
 Qed.
 
-Lemma send_framed_spec c script m sent r np sent' script' :
-  send_framed c script m sent = (r, np, sent', script') ->
-  (fitsb c m = false -> r = WDenied /\ sent' = sent /\ script' = script) /\
-  (fitsb c m = true ->
-     r <> WDenied /\ exists d e, sent' = sent ++ d /\ frame c m = d ++ e /\ (r = WOk -> e = [])).
+(* send_framed from any sink state: queued frames go out first, then a prefix of the frame (all
+   of it iff Ok); a message that does not fit contributes no byte. *)
+Lemma send_framed_spec c script w m sent r np w' sent' script' :
+  send_framed c script w m sent = (r, np, w', sent', script') ->
+  WInv w ->
+  WInv w' /\
+  (exists d e, sent' ++ qbytes w' = sent ++ qbytes w ++ d /\ frame c m = d ++ e /\
+               (r = WOk -> e = [] /\ qbytes w' = []) /\ (fitsb c m = false -> d = [])) /\
+  (r = WOk -> fitsb c m = true) /\ (r = WDenied -> fitsb c m = false).
 Proof.
-  unfold send_framed. destruct (fitsb c m) eqn:Hf; intros H.
-  - split; [discriminate|intros _]. destruct c as [n|mx].
-    + split.
-      * clear -H. revert H. generalize (filter (fun b : list N => negb (is_nil b)) [m]) as bufs.
-        generalize 0 as np0. revert sent. induction script as [|ev s IH]; intros sent np0 bufs H; cbn [sf_run] in H.
-        -- injection H as <- _ _ _. discriminate.
-        -- destruct bufs as [|b bufs']; destruct ev as [|k|]; try (destruct (is_nil s); [injection H as <- _ _ _; discriminate|eapply IH; exact H]);
-             try (injection H as <- _ _ _; discriminate).
-           destruct (N.min k (lenN b) =? 0); [injection H as <- _ _ _; discriminate|eapply IH; exact H].
-      * apply sf_run_spec in H. rewrite concat_filter_nonnil in H. cbn [concat] in H. rewrite app_nil_r in H. exact H.
-    + split.
-      * clear -H. revert H. generalize (filter (fun b : list N => negb (is_nil b)) [varint_enc (lenN m); m]) as bufs.
-        generalize 0 as np0. revert sent. induction script as [|ev s IH]; intros sent np0 bufs H; cbn [sf_run] in H.
-        -- injection H as <- _ _ _. discriminate.
-        -- destruct bufs as [|b bufs']; destruct ev as [|k|]; try (destruct (is_nil s); [injection H as <- _ _ _; discriminate|eapply IH; exact H]);
-             try (injection H as <- _ _ _; discriminate).
-           destruct (N.min k (lenN b) =? 0); [injection H as <- _ _ _; discriminate|eapply IH; exact H].
-      * apply sf_run_spec in H. rewrite concat_filter_nonnil in H. cbn [concat] in H. rewrite app_nil_r in H. exact H.
-  - injection H as <- <- <- <-. split; [auto|discriminate].
+  unfold send_framed. intros H Hinv.
+  set (pre := if queue_nonempty w then flush_all (S (length script)) script w sent 0 else (WOk, 0, w, sent, script)) in *.
+  destruct pre as [[[[r0 np0] w1] s1] sc1] eqn:Epre.
+  assert (Hpre : WInv w1 /\ s1 ++ qbytes w1 = sent ++ qbytes w /\ (r0 = WOk -> qbytes w1 = [])).
+  { unfold pre in Epre. destruct (queue_nonempty w) eqn:Hq.
+    - apply flush_all_spec in Epre; [|exact Hinv]. destruct Epre as (Hi & Hs & Hok).
+      repeat split; auto. intros Hr. destruct (Hok Hr) as (Hf1 & Hf2 & _). unfold qbytes. now rewrite Hf1, Hf2.
+    - injection Epre as <- <- <- <- <-. apply queue_nonempty_false in Hq. repeat split; auto. tauto. }
+  destruct Hpre as (Hi1 & Hs1 & Hq1).
+  assert (Hr0 : r0 = WPend \/ r0 = WOk \/ r0 = WIo).
+  { unfold pre in Epre. destruct (queue_nonempty w); [eapply flush_all_res; eauto|injection Epre as <- _ _ _ _; auto]. }
+  assert (Hnofit : forall (x : wres), x <> WOk -> x <> WDenied ->
+     WInv w1 /\ (exists d e, s1 ++ qbytes w1 = sent ++ qbytes w ++ d /\ frame c m = d ++ e /\
+                  (x = WOk -> e = [] /\ qbytes w1 = []) /\ (fitsb c m = false -> d = [])) /\
+     (x = WOk -> fitsb c m = true) /\ (x = WDenied -> fitsb c m = false)).
+  { intros x Hx1 Hx2. split; [exact Hi1|]. split; [|split; congruence].
+    exists [], (frame c m). rewrite app_nil_r. repeat split; auto; congruence. }
+  destruct r0; try (injection H as <- <- <- <- <-; apply Hnofit; discriminate); try (exfalso; destruct Hr0 as [Hr0|[Hr0|Hr0]]; discriminate).
+  specialize (Hq1 eq_refl). rewrite Hq1, app_nil_r in Hs1.
+  destruct (fitsb c m) eqn:Hfit.
+  - assert (Hrun : forall ident bufs, concat bufs = frame c m ->
+              sf_run ident sc1 bufs s1 np0 = (r, np, sent', script') -> w' = w1 ->
+              WInv w' /\ (exists d e, sent' ++ qbytes w' = sent ++ qbytes w ++ d /\ frame c m = d ++ e /\
+                          (r = WOk -> e = [] /\ qbytes w' = []) /\ (true = false -> d = [])) /\
+              (r = WOk -> true = true) /\ (r = WDenied -> true = false)).
+    { intros ident bufs Hb Hr ->. apply sf_run_spec in Hr. destruct Hr as (Hnd & d & e & Hs & Hc & Hok).
+      split; [exact Hi1|]. split; [|split; [auto|congruence]].
+      exists d, e. rewrite Hq1, app_nil_r, Hs, Hs1, <- Hb, <- app_assoc. repeat split; auto. discriminate. }
+    destruct c as [n|mx].
+    + destruct (sf_run true sc1 (filter (fun b => negb (is_nil b)) [m]) s1 np0) as [[[r2 np2] s2] sc2] eqn:E.
+      injection H as <- <- <- <- <-. eapply Hrun; eauto.
+      rewrite concat_filter_nonnil. cbn [concat frame]. now rewrite app_nil_r.
+    + destruct (sf_run false sc1 (filter (fun b => negb (is_nil b)) [varint_enc (lenN m); m]) s1 np0) as [[[r2 np2] s2] sc2] eqn:E.
+      injection H as <- <- <- <- <-. eapply Hrun; eauto.
+      rewrite concat_filter_nonnil. cbn [concat frame]. now rewrite app_nil_r.
+  - injection H as <- <- <- <- <-. split; [exact Hi1|]. split; [|split; [discriminate|auto]].
+    exists [], (frame c m). rewrite Hq1, !app_nil_r. repeat split; auto; discriminate.
+Qed.
+
+(* ---- close ---- *)
+(* one poll_close call: nothing is written, the queue is untouched; the carrier completed a
+   shutdown exactly when Ok is reported *)
+Lemma poll_close_spec script w sent r w' sent' script' sh :
+  poll_close script w sent = (r, w', sent', script', sh) ->
+  w' = w /\ sent' = sent /\ (r = WOk <-> sh = true).
+Proof.
+  unfold poll_close, shutdown1. intros H.
+  destruct script as [|[|n|] t]; injection H as <- <- <- <- <-; repeat split; congruence.
+Qed.
+
+Definition clean_ev (e : wev) : Prop := match e with WErr => False | WChunk n => n <> 0 | WPending => True end.
+
+Lemma flush_clean : forall script w sent r w' sent' script',
+  flush script w sent = (r, w', sent', script') -> Forall clean_ev script ->
+  r <> WIo /\ Forall clean_ev script'.
+Proof.
+  induction script as [|ev s IH]; intros w sent r w' sent' script' H Hc.
+  - cbn [flush] in H. destruct (take_frame w) as [[f w0]|]; injection H as <- <- <- <-; split; auto; discriminate.
+  - inversion Hc as [|x y Hx Hy]; subst. cbn [flush] in H.
+    destruct (take_frame w) as [[f w0]|].
+    + destruct ev as [|n|]; cbn [clean_ev] in Hx.
+      * injection H as <- <- <- <-. split; [discriminate|auto].
+      * replace ((N.min n (lenN f) =? 0) && negb (is_nil f)) with false in H.
+        -- eapply IH; eauto.
+        -- destruct f; cbn [is_nil negb]; [now rewrite andb_false_r|]. rewrite lenN_cons. symmetry.
+           apply andb_false_intro1. lia.
+      * contradiction.
+    + destruct ev as [|n|]; cbn [clean_ev] in Hx; try contradiction; injection H as <- <- <- <-; split; auto; discriminate.
+Qed.
+
+Lemma flush_all_clean : forall fuel script w sent np r np' w' sent' script',
+  flush_all fuel script w sent np = (r, np', w', sent', script') -> Forall clean_ev script ->
+  r <> WIo /\ Forall clean_ev script'.
+Proof.
+  induction fuel as [|fu IH]; intros script w sent np r np' w' sent' script' H Hc.
+  - cbn [flush_all] in H. injection H as <- <- <- <- <-. split; [discriminate|auto].
+  - cbn [flush_all] in H. destruct (flush script w sent) as [[[r1 w1] s1] sc1] eqn:E.
+    apply flush_clean in E; [|exact Hc]. destruct E as (Hn & Hc1).
+    destruct r1; try (injection H as <- <- <- <- <-; split; [congruence|auto]).
+    destruct (is_nil sc1); [injection H as <- <- <- <- <-; split; [discriminate|auto]|eapply IH; eauto].
+Qed.
+Lemma shutdown_all_clean : forall script np r np' sh script',
+  shutdown_all script np = (r, np', sh, script') -> Forall clean_ev script -> r = WOk -> sh = true.
+Proof.
+  induction script as [|ev s IH]; intros np r np' sh script' H Hc Hr; cbn [shutdown_all] in H.
+  - injection H as <- _ _ _. discriminate.
+  - inversion Hc as [|x y Hx Hy]; subst x y. destruct ev as [|n|]; cbn [clean_ev] in Hx; try contradiction.
+    + destruct (is_nil s); [injection H as H _ _ _; congruence|eapply IH; eauto].
+    + injection H as _ _ <- _. reflexivity.
+Qed.
+
+(* Substream::close(self): nothing is written; over a carrier that does not fail a completed
+   close has shut the carrier down *)
+Lemma close_all_spec script w sent r np w' sent' script' sh :
+  close_all script w sent = (r, np, w', sent', script', sh) ->
+  w' = w /\ sent' = sent /\ (r = WOk -> Forall clean_ev script -> sh = true).
+Proof.
+  unfold close_all. intros H. destruct (shutdown_all script 0) as [[[r2 np2] sh2] sc2] eqn:E.
+  injection H as <- <- <- <- <- <-. repeat split. intros Hr Hc. eapply shutdown_all_clean; eauto.
 Qed.
 
 (* ---- operation histories ---- *)
-Definition sink_op (o : op) : bool := match o with OFramed _ => false | _ => true end.
-Definition framed_op (o : op) : bool := match o with OFramed _ => true | _ => false end.
-
 Lemma wire_of_app c a b : wire_of c (a ++ b) = wire_of c a ++ wire_of c b.
 Proof. unfold wire_of. now rewrite map_app, concat_app. Qed.
 Lemma wire_of_cons c m t : wire_of c (m :: t) = frame c m ++ wire_of c t.
@@ -226,40 +370,57 @@ Proof. reflexivity. Qed.
 Lemma accepted_cons c o t : accepted c (o :: t) = accepted c [o] ++ accepted c t.
 Proof. unfold accepted. cbn [flat_map]. now rewrite app_nil_r. Qed.
 
-Lemma step_sink bp c s o r s' :
-  step bp c s o = (r, s') -> sink_op o = true -> WInv (ws s) -> fst r <> WIo ->
+(* a send_framed call is `good` when it ran to completion: Ok or PermissionDenied. (A call that
+   failed or was abandoned may leave part of its frame on the wire; the caller has been told.) *)
+Definition good (o : op) (r : wres * N) : Prop :=
+  match o with OFramed _ => fst r = WOk \/ fst r = WDenied | _ => True end.
+
+Lemma step_inv bp c s o r s' :
+  step bp c s o = (r, s') -> WInv (ws s) -> good o r ->
   WInv (ws s') /\ sent s' ++ qbytes (ws s') = sent s ++ qbytes (ws s) ++ wire_of c (accepted c [o]).
 Proof.
-  destruct o as [|m| |m]; cbn [step sink_op]; intros H Hs Hi Hr; try discriminate.
+  assert (Hnil : forall (l : list N), l ++ wire_of c [] = l) by (intros; unfold wire_of; cbn; apply app_nil_r).
+  destruct o as [|m| |m| |]; cbn [step good]; intros H Hi Hg.
   - destruct (poll_ready bp (wscript s) (ws s) (sent s)) as [[[r0 w] sn] sc] eqn:E.
-    injection H as <- <-. cbn [fst] in Hr. apply poll_ready_spec in E; [|exact Hi].
-    destruct E as (_ & Hk & _). destruct (Hk Hr) as (Hi' & Hq). cbn [ws sent].
-    split; [exact Hi'|]. rewrite Hq. unfold accepted, wire_of. cbn. now rewrite app_nil_r.
+    injection H as <- <-. apply poll_ready_spec in E; [|exact Hi].
+    destruct E as (_ & Hi' & Hq & _). cbn [ws sent]. split; [exact Hi'|]. rewrite Hq. cbn [accepted flat_map].
+    now rewrite Hnil.
   - destruct (start_send c (ws s) m) as [r0 w] eqn:E. injection H as <- <-. cbn [ws sent].
     apply start_send_spec in E. destruct E as (Ht & Hf). unfold accepted. cbn [flat_map].
     destruct (fitsb c m) eqn:Hfit.
     + destruct (Ht eq_refl) as (_ & Hq & Hw). split; [auto|]. rewrite Hq. unfold wire_of. cbn [map concat app].
       now rewrite !app_nil_r.
-    + destruct (Hf eq_refl) as (_ & ->). split; [exact Hi|]. unfold wire_of. cbn. now rewrite app_nil_r.
+    + destruct (Hf eq_refl) as (_ & ->). split; [exact Hi|]. now rewrite Hnil.
   - destruct (flush (wscript s) (ws s) (sent s)) as [[[r0 w] sn] sc] eqn:E.
-    injection H as <- <-. cbn [fst] in Hr. apply flush_spec in E; [|exact Hi].
-    destruct E as (_ & Hk & _). destruct (Hk Hr) as (Hi' & Hq). cbn [ws sent].
-    split; [exact Hi'|]. rewrite Hq. unfold accepted, wire_of. cbn. now rewrite app_nil_r.
+    injection H as <- <-. apply flush_spec in E; [|exact Hi].
+    destruct E as (_ & Hi' & Hq & _). cbn [ws sent]. split; [exact Hi'|]. rewrite Hq. cbn [accepted flat_map].
+    now rewrite Hnil.
+  - destruct (send_framed c (wscript s) (ws s) m (sent s)) as [[[[r0 np] w] sn] sc] eqn:E.
+    injection H as <- <-. cbn [fst] in Hg. apply send_framed_spec in E; [|exact Hi].
+    destruct E as (Hi' & (d & e & Hq & Hfr & Hok & Hno) & Hr1 & Hr2). cbn [ws sent]. split; [exact Hi'|].
+    rewrite Hq. unfold accepted. cbn [flat_map]. destruct Hg as [Hg|Hg].
+    + rewrite (Hr1 Hg). destruct (Hok Hg) as (-> & _). rewrite app_nil_r in Hfr. unfold wire_of. cbn [map concat app].
+      now rewrite !app_nil_r, Hfr.
+    + rewrite (Hr2 Hg). rewrite (Hno (Hr2 Hg)). unfold wire_of. cbn [app map concat]. reflexivity.
+  - destruct (poll_close (wscript s) (ws s) (sent s)) as [[[[r0 w] sn] sc] sh] eqn:E.
+    injection H as <- <-. apply poll_close_spec in E. destruct E as (-> & -> & _). cbn [ws sent].
+    split; [exact Hi|]. cbn [accepted flat_map]. now rewrite Hnil.
+  - destruct (close_all (wscript s) (ws s) (sent s)) as [[[[[r0 np] w] sn] sc] sh] eqn:E.
+    injection H as <- <-. apply close_all_spec in E. destruct E as (-> & -> & _). cbn [ws sent].
+    split; [exact Hi|]. cbn [accepted flat_map]. now rewrite Hnil.
 Qed.
 
-Lemma run_ops_sink bp c : forall ops s rs s',
-  run_ops bp c s ops = (rs, s') -> forallb sink_op ops = true -> WInv (ws s) ->
-  Forall (fun r => fst r <> WIo) rs ->
+Lemma run_ops_inv bp c : forall ops s rs s',
+  run_ops bp c s ops = (rs, s') -> WInv (ws s) -> Forall2 good ops rs ->
   WInv (ws s') /\ sent s' ++ qbytes (ws s') = sent s ++ qbytes (ws s) ++ wire_of c (accepted c ops).
 Proof.
-  induction ops as [|o t IH]; intros s rs s' H Hs Hi Hr.
+  induction ops as [|o t IH]; intros s rs s' H Hi Hg.
   - injection H as <- <-. split; [exact Hi|]. unfold accepted, wire_of. cbn. now rewrite app_nil_r.
   - cbn [run_ops] in H. destruct (step bp c s o) as [r s1] eqn:E1.
     destruct (run_ops bp c s1 t) as [rs1 s2] eqn:E2. injection H as <- <-.
-    cbn [forallb] in Hs. apply andb_prop in Hs. destruct Hs as (Ho & Ht).
-    inversion Hr as [|x y Hx Hy]; subst.
-    destruct (step_sink _ _ _ _ _ _ E1 Ho Hi Hx) as (Hi1 & Hq1).
-    destruct (IH _ _ _ E2 Ht Hi1 Hy) as (Hi2 & Hq2). split; [exact Hi2|].
+    inversion Hg as [|x y l l' Hx Hy]; subst.
+    destruct (step_inv _ _ _ _ _ _ E1 Hi Hx) as (Hi1 & Hq1).
+    destruct (IH _ _ _ E2 Hi1 Hy) as (Hi2 & Hq2). split; [exact Hi2|].
     rewrite Hq2, accepted_cons, wire_of_app, app_assoc, Hq1, <- !app_assoc. reflexivity.
 Qed.
 
@@ -273,54 +434,12 @@ Proof.
     destruct (run_ops bp c s1 a) as [ra s2]. destruct (run_ops bp c s2 b) as [rb s3]. reflexivity.
 Qed.
 
-(* a history of sink operations ending in a flush that reports completion: everything that was
-   accepted is with the carrier, nothing is queued *)
-Lemma sink_flush_complete bp c script ops rs r s' :
-  run_ops bp c (init_sys script) (ops ++ [OFlush]) = (rs ++ [r], s') ->
-  length rs = length ops ->
-  forallb sink_op ops = true -> Forall (fun x => fst x <> WIo) rs -> fst r = WOk ->
-  sent s' = wire_of c (accepted c ops) /\ frames (ws s') = [] /\ curf (ws s') = None /\ pbytes (ws s') = 0.
+Lemma run_ops_length bp c : forall ops s rs s', run_ops bp c s ops = (rs, s') -> length rs = length ops.
 Proof.
-  intros H Hlen Hs Hr Hok. rewrite run_ops_app in H.
-  destruct (run_ops bp c (init_sys script) ops) as [ra s1] eqn:E1.
-  cbn [run_ops step] in H. destruct (flush (wscript s1) (ws s1) (sent s1)) as [[[r0 w] sn] sc] eqn:E2.
-  injection H as H1 H2. subst s'.
-  assert (Hla : length ra = length ops).
-  { clear -E1. revert ra s1 E1. generalize (init_sys script). induction ops as [|o t IH]; intros s ra s1 E1.
-    - injection E1 as <- <-. reflexivity.
-    - cbn [run_ops] in E1. destruct (step bp c s o) as [x s2]. destruct (run_ops bp c s2 t) as [rs2 s3] eqn:E.
-      injection E1 as <- <-. cbn [length]. f_equal. eapply IH. exact E. }
-  apply app_inj_tail_iff in H1 || (apply app_inj_tail in H1). destruct H1 as (-> & <-).
-  cbn [fst] in Hok. subst r0.
-  destruct (run_ops_sink _ _ _ _ _ _ E1 Hs WInv_init Hr) as (Hi1 & Hq1).
-  apply flush_spec in E2; [|exact Hi1]. destruct E2 as (_ & Hk & Hf).
-  destruct (Hk ltac:(discriminate)) as (Hi2 & Hq2). destruct (Hf eq_refl) as (Hf1 & Hf2 & Hf3).
-  cbn [ws sent]. repeat split; try assumption.
-  assert (Hqe : qbytes w = []) by (unfold qbytes; now rewrite Hf1, Hf2).
-  rewrite Hqe, app_nil_r in Hq2. rewrite Hq2, Hq1. cbn. reflexivity.
-Qed.
-
-Lemma run_ops_framed bp c : forall ops s rs s',
-  run_ops bp c s ops = (rs, s') -> forallb framed_op ops = true ->
-  Forall (fun r => fst r = WOk \/ fst r = WDenied) rs ->
-  ws s' = ws s /\ sent s' = sent s ++ wire_of c (accepted c ops).
-Proof.
-  induction ops as [|o t IH]; intros s rs s' H Hs Hr.
-  - injection H as <- <-. split; [reflexivity|]. unfold accepted, wire_of. cbn. now rewrite app_nil_r.
-  - cbn [run_ops] in H. destruct (step bp c s o) as [r s1] eqn:E1.
-    destruct (run_ops bp c s1 t) as [rs1 s2] eqn:E2. injection H as <- <-.
-    cbn [forallb] in Hs. apply andb_prop in Hs. destruct Hs as (Ho & Ht).
-    inversion Hr as [|x y Hx Hy]; subst.
-    destruct o as [|m| |m]; try discriminate. cbn [step] in E1.
-    destruct (send_framed c (wscript s) m (sent s)) as [[[r0 np] sn] sc] eqn:E.
-    injection E1 as <- <-. cbn [fst] in Hx.
-    destruct (IH _ _ _ E2 Ht Hy) as (Hw & Hq). cbn [ws sent] in Hw, Hq. split; [exact Hw|].
-    rewrite Hq, accepted_cons, wire_of_app, app_assoc. f_equal.
-    apply send_framed_spec in E. destruct E as (Hf & Hg). unfold accepted. cbn [flat_map].
-    destruct (fitsb c m) eqn:Hfit.
-    + destruct (Hg eq_refl) as (Hnd & d & e & Hd & He & Hok). destruct Hx as [Hx|Hx]; [|congruence].
-      rewrite (Hok Hx), app_nil_r in He. unfold wire_of. cbn [map concat app]. rewrite !app_nil_r. congruence.
-    + destruct (Hf eq_refl) as (_ & -> & _). unfold wire_of. cbn. now rewrite app_nil_r.
+  induction ops as [|o t IH]; intros s rs s' H.
+  - injection H as <- <-. reflexivity.
+  - cbn [run_ops] in H. destruct (step bp c s o) as [x s2]. destruct (run_ops bp c s2 t) as [rs2 s3] eqn:E.
+    injection H as <- <-. cbn [length]. f_equal. eapply IH. exact E.
 Qed.
 
 (* ------------------------------------------------------------------ varint *)
@@ -818,60 +937,304 @@ Proof.
   induction ops as [|o t IH]; intros H; [constructor|]. inversion H as [|x y Hx Hy]; subst.
   rewrite accepted_cons. apply Forall_app. split; [|apply IH; exact Hy].
   unfold accepted. cbn [flat_map]. rewrite app_nil_r.
-  destruct o as [|m| |m]; try constructor; cbn [small_op] in Hx;
+  destruct o as [|m| |m| |]; try constructor; cbn [small_op] in Hx;
     (destruct (fitsb c m) eqn:Hf; [constructor; [auto|constructor]|constructor]).
 Qed.
 
-Lemma roundtrip_sink bp c wscript ops rs s' rscript polls outs st' wire' script' :
-  forallb sink_op ops = true -> Forall small_op ops ->
+(* every history of the six operations, whatever the carrier does *)
+Lemma mixed_stream bp c script ops rs s' :
+  run_ops bp c (init_sys script) ops = (rs, s') ->
+  Forall2 good ops rs ->
+  pbytes (ws s') = lenN (qbytes (ws s')) /\
+  sent s' ++ qbytes (ws s') = wire_of c (accepted c ops).
+Proof.
+  intros Hrun Hg. destruct (run_ops_inv _ _ _ _ _ _ Hrun WInv_init Hg) as (Hi & Hq).
+  split; [exact Hi|exact Hq].
+Qed.
+
+Lemma hist_flush_complete bp c script ops rs r s' :
+  run_ops bp c (init_sys script) (ops ++ [OFlush]) = (rs ++ [r], s') ->
+  Forall2 good ops rs -> fst r = WOk ->
+  sent s' = wire_of c (accepted c ops) /\ frames (ws s') = [] /\ curf (ws s') = None /\ pbytes (ws s') = 0.
+Proof.
+  intros H Hg Hok. rewrite run_ops_app in H.
+  destruct (run_ops bp c (init_sys script) ops) as [ra s1] eqn:E1.
+  cbn [run_ops step] in H. destruct (flush (wscript s1) (ws s1) (sent s1)) as [[[r0 w] sn] sc] eqn:E2.
+  injection H as H1 H2. subst s'.
+  apply app_inj_tail in H1. destruct H1 as (-> & <-). cbn [fst] in Hok. subst r0.
+  destruct (run_ops_inv _ _ _ _ _ _ E1 WInv_init Hg) as (Hi1 & Hq1).
+  apply flush_spec in E2; [|exact Hi1]. destruct E2 as (_ & Hi2 & Hq2 & Hf).
+  destruct (Hf eq_refl) as (Hf1 & Hf2 & Hf3). cbn [ws sent]. repeat split; try assumption.
+  assert (Hqe : qbytes w = []) by (unfold qbytes; now rewrite Hf1, Hf2).
+  rewrite Hqe, app_nil_r in Hq2. rewrite Hq2, Hq1. reflexivity.
+Qed.
+
+(* a history whose last flush completed, followed by a poll_close that reports completion:
+   everything handed over is with the carrier, nothing is queued, the carrier is shut down *)
+Lemma hist_close_after_flush bp c script ops rs rf rc s' :
+  run_ops bp c (init_sys script) (ops ++ [OFlush; OClose]) = (rs ++ [rf; rc], s') ->
+  Forall2 good ops rs -> fst rf = WOk -> fst rc = WOk ->
+  sent s' = wire_of c (accepted c ops) /\ qbytes (ws s') = [] /\ shut s' = true.
+Proof.
+  intros H Hg Hf Hc. rewrite run_ops_app in H.
+  destruct (run_ops bp c (init_sys script) ops) as [ra s1] eqn:E1.
+  cbn [run_ops step] in H. destruct (flush (wscript s1) (ws s1) (sent s1)) as [[[r0 w] sn] sc] eqn:E2.
+  cbn [wscript ws sent shut] in H.
+  destruct (poll_close sc w sn) as [[[[r1 w2] sn2] sc2] sh] eqn:E3.
+  injection H as H1 H2. subst s'.
+  pose proof (run_ops_length _ _ _ _ _ _ E1) as Hl1.
+  assert (Hl2 : length ops = length rs).
+  { clear -Hg. induction Hg; cbn [length]; congruence. }
+  assert (Hra : ra = rs /\ [(r0, 0); (r1, 0)] = [rf; rc]).
+  { apply app_eq_len; [exact H1|]. lia. }
+  destruct Hra as (-> & Hrr). injection Hrr as <- <-. cbn [fst] in Hf, Hc. subst r0 r1.
+  destruct (run_ops_inv _ _ _ _ _ _ E1 WInv_init Hg) as (Hi1 & Hq1).
+  apply flush_spec in E2; [|exact Hi1]. destruct E2 as (_ & Hi2 & Hq2 & Hok).
+  destruct (Hok eq_refl) as (Hf1 & Hf2 & _).
+  apply poll_close_spec in E3. destruct E3 as (-> & -> & Hsh). cbn [ws sent shut].
+  assert (Hqe : qbytes w = []) by (unfold qbytes; now rewrite Hf1, Hf2).
+  rewrite (proj1 Hsh eq_refl), orb_true_r. repeat split; auto.
+  rewrite Hqe, app_nil_r in Hq2. rewrite Hq2, Hq1. reflexivity.
+Qed.
+
+(* the same for Substream::close(self), which ignores errors: over a carrier that does not fail *)
+Lemma hist_close_all_after_flush bp c script ops rs rf s1 np w' sent' script' sh :
+  run_ops bp c (init_sys script) (ops ++ [OFlush]) = (rs ++ [rf], s1) ->
+  Forall2 good ops rs -> fst rf = WOk ->
+  close_all (wscript s1) (ws s1) (sent s1) = (WOk, np, w', sent', script', sh) ->
+  Forall clean_ev (wscript s1) ->
+  sent' = wire_of c (accepted c ops) /\ qbytes w' = [] /\ sh = true.
+Proof.
+  intros E1 Hg Hf E2 Hc.
+  destruct (hist_flush_complete _ _ _ _ _ _ _ E1 Hg Hf) as (Hs & Hf1 & Hf2 & _).
+  apply close_all_spec in E2. destruct E2 as (-> & -> & Hsh).
+  repeat split; auto. unfold qbytes. now rewrite Hf1, Hf2.
+Qed.
+
+Lemma roundtrip_mixed bp c wscript ops rs s' rscript polls outs st' wire' script' :
+  Forall small_op ops ->
   run_ops bp c (init_sys wscript) ops = (rs, s') ->
-  Forall (fun r => fst r <> WIo) rs ->
+  Forall2 good ops rs ->
   run_reader polls c (init_r c) (sent s') rscript = (outs, st', wire', script') ->
   ~ In RPanic outs /\ ~ In RFail outs /\
   exists rest, accepted c ops = frames_of outs ++ rest /\
                (c <> Identity 0 -> qbytes (ws s') = [] -> wire' = [] -> rest = []).
 Proof.
-  intros Hs Hsm Hrun Hr Hrd.
-  destruct (run_ops_sink _ _ _ _ _ _ Hrun Hs WInv_init Hr) as (_ & Hq). cbn [init_sys sent ws qbytes init_w curf frames app concat] in Hq.
+  intros Hsm Hrun Hg Hrd.
+  destruct (run_ops_inv _ _ _ _ _ _ Hrun WInv_init Hg) as (_ & Hq).
+  cbn [init_sys sent ws qbytes init_w curf frames app concat] in Hq.
   eapply reader_roundtrip; eauto. apply accepted_fits. exact Hsm.
 Qed.
 
-Lemma roundtrip_framed bp c wscript ops rs s' rscript polls outs st' wire' script' :
-  forallb framed_op ops = true -> Forall small_op ops ->
-  run_ops bp c (init_sys wscript) ops = (rs, s') ->
-  Forall (fun r => fst r = WOk \/ fst r = WDenied) rs ->
-  run_reader polls c (init_r c) (sent s') rscript = (outs, st', wire', script') ->
-  ~ In RPanic outs /\ ~ In RFail outs /\
-  exists rest, accepted c ops = frames_of outs ++ rest /\
-               (c <> Identity 0 -> wire' = [] -> rest = []).
-Proof.
-  intros Hs Hsm Hrun Hr Hrd.
-  destruct (run_ops_framed _ _ _ _ _ _ Hrun Hs Hr) as (_ & Hq). cbn [init_sys sent app] in Hq.
-  destruct (reader_roundtrip c (accepted c ops) (sent s') [] rscript polls outs st' wire' script'
-              (accepted_fits c ops Hsm) ltac:(rewrite app_nil_r; exact Hq) Hrd) as (H1 & H2 & rest & Hr1 & Hr2).
-  repeat split; auto. exists rest. split; [exact Hr1|]. intros Hc0 Hw. apply Hr2; auto.
-Qed.
-
-Lemma sink_stream bp c script ops rs s' :
-  forallb sink_op ops = true ->
-  run_ops bp c (init_sys script) ops = (rs, s') ->
-  Forall (fun r => fst r <> WIo) rs ->
-  pbytes (ws s') = lenN (qbytes (ws s')) /\
-  sent s' ++ qbytes (ws s') = wire_of c (accepted c ops).
-Proof.
-  intros Hs Hrun Hr. destruct (run_ops_sink _ _ _ _ _ _ Hrun Hs WInv_init Hr) as (Hi & Hq).
-  split; [exact Hi|exact Hq].
-Qed.
-
-Lemma sender_refuses c w m script sent0 :
+Lemma sender_refuses c w m script sent0 r np w' sent' script' :
   fitsb c m = false ->
-  start_send c w m = (WDenied, w) /\ send_framed c script m sent0 = (WDenied, 0, sent0, script).
+  start_send c w m = (WDenied, w) /\
+  (send_framed c script w m sent0 = (r, np, w', sent', script') -> pbytes w = lenN (qbytes w) ->
+   r <> WOk /\ sent' ++ qbytes w' = sent0 ++ qbytes w /\
+   (queue_nonempty w = false -> r = WDenied /\ sent' = sent0 /\ script' = script /\ w' = w)).
 Proof.
-  intros Hf. unfold start_send, send_framed. rewrite Hf. auto.
+  intros Hf. split; [unfold start_send; now rewrite Hf|]. intros H Hinv.
+  pose proof H as H0. apply send_framed_spec in H; [|exact Hinv].
+  destruct H as (_ & (d & e & Hq & _ & _ & Hno) & Hr1 & _).
+  split; [intros Hr; specialize (Hr1 Hr); congruence|]. split; [now rewrite Hq, (Hno Hf), app_nil_r|].
+  intros Hqn. unfold send_framed in H0. rewrite Hqn, Hf in H0. injection H0 as <- _ <- <- <-. auto.
 Qed.
 
 Lemma backpressure bp script w sent0 w' sent' script' :
   0 < bp -> WInv w -> poll_ready bp script w sent0 = (WOk, w', sent', script') -> pbytes w' < bp.
 Proof.
-  intros Hb Hi H. apply poll_ready_spec in H; [|exact Hi]. destruct H as (_ & _ & Hok). auto.
+  intros Hb Hi H. apply poll_ready_spec in H; [|exact Hi]. destruct H as (_ & _ & _ & Hok). auto.
+Qed.
+
+(* ---- what the carrier did is what the caller is told ---- *)
+(* a carrier error met by poll_flush is reported by that very call: a call that answers Ok or
+   Pending consumed no error event *)
+Lemma flush_err_reported : forall script w sent r w' sent' script',
+  flush script w sent = (r, w', sent', script') -> r <> WIo ->
+  exists pre, script = pre ++ script' /\ Forall (fun e => e <> WErr) pre.
+Proof.
+  induction script as [|ev s IH]; intros w sent r w' sent' script' H Hr; cbn [flush] in H.
+  - destruct (take_frame w) as [[f w0]|]; injection H as <- <- <- <-; exists []; auto.
+  - destruct (take_frame w) as [[f w0]|].
+    + destruct ev as [|n|].
+      * injection H as <- <- <- <-. exists [WPending]. split; [reflexivity|]. constructor; [discriminate|constructor].
+      * destruct ((N.min n (lenN f) =? 0) && negb (is_nil f)); [injection H as <- _ _ _; congruence|].
+        apply IH in H; [|exact Hr]. destruct H as (pre & -> & Hp). exists (WChunk n :: pre).
+        split; [reflexivity|]. constructor; [discriminate|exact Hp].
+      * injection H as <- _ _ _. congruence.
+    + destruct ev as [|n|]; injection H as <- <- <- <-; try congruence.
+      * exists [WPending]. split; [reflexivity|]. constructor; [discriminate|constructor].
+      * exists [WChunk n]. split; [reflexivity|]. constructor; [discriminate|constructor].
+Qed.
+
+Lemma sf_run_err_reported : forall ident script bufs sent np r np' sent' script',
+  sf_run ident script bufs sent np = (r, np', sent', script') -> r = WOk \/ r = WPend ->
+  exists pre, script = pre ++ script' /\ Forall (fun e => e <> WErr) pre.
+Proof.
+  induction script as [|ev s IH]; intros bufs sent np r np' sent' script' H Hr; cbn [sf_run] in H.
+  - injection H as <- <- <- <-. exists []. auto.
+  - assert (Hcons : forall e0, e0 <> WErr -> (exists pre, s = pre ++ script' /\ Forall (fun e => e <> WErr) pre) ->
+                      exists pre, e0 :: s = pre ++ script' /\ Forall (fun e => e <> WErr) pre).
+    { intros e0 He (pre & -> & Hp). exists (e0 :: pre). split; [reflexivity|]. constructor; assumption. }
+    destruct bufs as [|b bufs'].
+    + destruct ev as [|n|].
+      * apply Hcons; [discriminate|]. destruct (is_nil s) eqn:Hs.
+        -- injection H as <- <- <- <-. apply is_nil_true in Hs. subst s. exists []. auto.
+        -- eapply IH; eauto.
+      * injection H as <- <- <- <-. apply Hcons; [discriminate|]. exists []. auto.
+      * injection H as <- _ _ _. destruct Hr; discriminate.
+    + destruct ev as [|n|].
+      * apply Hcons; [discriminate|]. destruct (is_nil s) eqn:Hs.
+        -- injection H as <- <- <- <-. apply is_nil_true in Hs. subst s. exists []. auto.
+        -- eapply IH; eauto.
+      * destruct (N.min n (lenN b) =? 0).
+        -- injection H as <- _ _ _. destruct ident; destruct Hr; discriminate.
+        -- apply Hcons; [discriminate|]. eapply IH; eauto.
+      * injection H as <- _ _ _. destruct ident; destruct Hr; discriminate.
+Qed.
+
+(* ---- wake-ups: a call answers Pending only when its last carrier call answered Pending (the
+   event consumed last is a Pending event, or the script was exhausted, which the carrier answers
+   with Pending), so the carrier holds the caller's waker ---- *)
+Lemma flush_pending : forall script w sent w' sent' script',
+  flush script w sent = (WPend, w', sent', script') ->
+  (exists pre, script = pre ++ WPending :: script') \/ script' = [].
+Proof.
+  induction script as [|ev s IH]; intros w sent w' sent' script' H; cbn [flush] in H.
+  - destruct (take_frame w) as [[f w0]|]; injection H as _ _ <-; auto.
+  - destruct (take_frame w) as [[f w0]|].
+    + destruct ev as [|n|]; try (injection H as H _ _ _; discriminate).
+      * injection H as _ _ <-. left. exists []. reflexivity.
+      * destruct ((N.min n (lenN f) =? 0) && negb (is_nil f)); [injection H as H _ _ _; discriminate|].
+        apply IH in H. destruct H as [(pre & ->)|H]; [left; exists (WChunk n :: pre); reflexivity|auto].
+    + destruct ev as [|n|]; try (injection H as H _ _ _; discriminate).
+      injection H as _ _ <-. left. exists []. reflexivity.
+Qed.
+
+Lemma poll_next_pending c : forall script st wire st' wire' script',
+  poll_next c st wire script = (RPend, st', wire', script') ->
+  (exists pre, script = pre ++ EvPending :: script') \/ script' = [].
+Proof.
+  induction script as [|ev s IH]; intros st wire st' wire' script' H; cbn [poll_next] in H.
+  - destruct (want c st); [injection H as _ _ <-; auto|discriminate].
+  - destruct (want c st) as [cap|]; [|injection H as H _ _ _; discriminate].
+    destruct ev as [|n| |].
+    + injection H as _ _ <-. left. exists []. reflexivity.
+    + destruct (on_data c st (takeN (N.min n (N.min cap (lenN wire))) wire)) as [st1 [r|]] eqn:E.
+      * injection H as -> _ _ <-. exfalso. unfold on_data in E.
+        destruct (is_nil (takeN (N.min n (N.min cap (lenN wire))) wire)); [discriminate|].
+        destruct c as [n0|mx].
+        -- destruct (lenN _ =? n0); discriminate.
+        -- destruct (cur st).
+           ++ destruct (lenN _ =? _); discriminate.
+           ++ destruct (read_payload_size _) as [sz nb| | |]; try discriminate.
+              destruct (negb (nb =? _)); [discriminate|].
+              destruct (match mx with Some mx0 => mx0 <? sz | None => false end); [discriminate|].
+              destruct (sz =? 0); discriminate.
+      * apply IH in H. destruct H as [(pre & ->)|H]; [left; exists (EvChunk n :: pre); reflexivity|auto].
+    + injection H as H _ _ _. discriminate.
+    + injection H as H _ _ _. destruct c; discriminate.
+Qed.
+
+(* ---- degenerate configurations, as the code behaves ---- *)
+(* Identity(0): the reader hands a zero-length buffer to the carrier and takes the resulting
+   "0 bytes read" for end of stream: no frame is ever delivered (and the sender's frames are empty) *)
+Lemma want_id0 : want (Identity 0) (init_r (Identity 0)) = Some 0.
+Proof. reflexivity. Qed.
+
+Lemma identity_zero_poll : forall script wire o st' wire' script',
+  poll_next (Identity 0) (init_r (Identity 0)) wire script = (o, st', wire', script') ->
+  (o = RPend \/ o = RClosed \/ o = RIoErr) /\ st' = init_r (Identity 0) /\ wire' = wire.
+Proof.
+  intros script wire o st' wire' script' H. destruct script as [|ev s]; cbn [poll_next] in H; rewrite want_id0 in H.
+  - injection H as <- <- <- _. auto.
+  - destruct ev as [|n| |].
+    + injection H as <- <- <- _. auto.
+    + replace (N.min n (N.min 0 (lenN wire))) with 0 in H by lia.
+      change (takeN 0 wire) with (@nil N) in H. change (dropN 0 wire) with wire in H.
+      unfold on_data in H. cbn [is_nil] in H. injection H as <- <- <- _. auto.
+    + injection H as <- <- <- _. auto.
+    + cbn [on_err] in H. injection H as <- <- <- _. auto.
+Qed.
+
+Lemma identity_zero : forall polls wire script outs st' wire' script',
+  run_reader polls (Identity 0) (init_r (Identity 0)) wire script = (outs, st', wire', script') ->
+  frames_of outs = [] /\ Forall (fun o => o = RPend \/ o = RClosed \/ o = RIoErr) outs /\ wire' = wire.
+Proof.
+  induction polls as [|p IH]; intros wire script outs st' wire' script' H.
+  - injection H as <- _ <- _. auto.
+  - cbn [run_reader] in H.
+    destruct (poll_next (Identity 0) (init_r (Identity 0)) wire script) as [[[o st1] w1] s1] eqn:E.
+    apply identity_zero_poll in E. destruct E as (Ho & -> & ->).
+    destruct (run_reader p (Identity 0) (init_r (Identity 0)) wire s1) as [[[os st2] w2] s2] eqn:E2.
+    apply IH in E2. destruct E2 as (Hf & Ha & Hw).
+    destruct Ho as [ -> | [ -> | -> ] ]; injection H as <- _ <- _; cbn [frames_of flat_map app];
+      (split; [exact Hf|]); (split; [constructor; auto|exact Hw]).
+Qed.
+
+(* UnsignedVarint(None): whatever non-zero length the wire announces becomes the size of the
+   read buffer at once, before any payload byte has arrived *)
+Lemma none_allocates st b n :
+  cur st = None -> read_payload_size (filled st ++ [b]) = RpsOk n (lenN (filled st ++ [b])) -> n <> 0 ->
+  on_data (Varint None) st [b] = (mkR n [] (Some n), None).
+Proof.
+  intros Hc Hr Hn. unfold on_data. cbn [is_nil]. rewrite Hc, Hr, N.eqb_refl. cbn [negb].
+  replace (n =? 0) with false by lia. reflexivity.
+Qed.
+
+Lemma read_len_alloc n : 0 < n -> n < USIZE_MOD ->
+  forall e pre buf, varint_enc n = pre ++ e -> e <> [] ->
+  poll_next (Varint None) (mkR buf pre None) e (repeat (EvChunk 1) (length e)) =
+  (RPend, mkR n [] (Some n), [], []).
+Proof.
+  intros Hn0 Hn. induction e as [|b e IH]; intros pre buf He Hne; [congruence|].
+  assert (Hlen : (length pre + S (length e) <= 10)%nat).
+  { pose proof (enc_fuel_len 9 n) as Hl. unfold varint_enc in He. rewrite He, app_length in Hl. cbn [length] in Hl. lia. }
+  cbn [length repeat poll_next]. unfold want. cbn [cur filled].
+  replace (lenN pre + 1 <=? 10) with true by (unfold lenN; lia).
+  replace (N.min 1 (N.min 1 (lenN (b :: e)))) with 1 by (rewrite lenN_cons; lia).
+  change (takeN 1 (b :: e)) with [b]. change (dropN 1 (b :: e)) with e.
+  destruct e as [|b' e'].
+  - rewrite (none_allocates (mkR buf pre None) b n eq_refl); [| |lia].
+    + cbn [repeat length poll_next]. unfold want. cbn [cur filled buf_len]. rewrite lenN_nil.
+      replace (0 <=? n) with true by lia. reflexivity.
+    + cbn [filled]. rewrite <- He. apply rps_enc. exact Hn.
+  - assert (Hsp : varint_enc n = (pre ++ [b]) ++ b' :: e') by (rewrite He, <- app_assoc; reflexivity).
+    unfold on_data. cbn [is_nil cur filled]. rewrite (rps_prefix _ _ _ Hsp ltac:(discriminate)).
+    cbn [buf_len]. apply IH; [exact Hsp|discriminate].
+Qed.
+
+Lemma none_unbounded_alloc n : 0 < n -> n < USIZE_MOD ->
+  let e := varint_enc n in
+  let '(outs, st', _, _) := run_reader 1 (Varint None) (init_r (Varint None)) e (repeat (EvChunk 1) (length e)) in
+  outs = [RPend] /\ buf_len st' = n /\ filled st' = [].
+Proof.
+  intros Hn0 Hn e. subst e. cbn [run_reader]. unfold init_r.
+  rewrite (read_len_alloc n Hn0 Hn (varint_enc n) [] 1024 eq_refl (enc_fuel_nonnil 9 n)).
+  cbn. auto.
+Qed.
+
+(* ---- the fuel of flush_all (a modelling device) is never exhausted ---- *)
+Lemma flush_consumes : forall script w sent r w' sent' script',
+  flush script w sent = (r, w', sent', script') ->
+  (script = [] /\ script' = []) \/ (length script' < length script)%nat.
+Proof.
+  induction script as [|ev s IH]; intros w sent r w' sent' script' H; cbn [flush] in H.
+  - left. destruct (take_frame w) as [[f w0]|]; injection H as _ _ _ <-; auto.
+  - right. destruct (take_frame w) as [[f w0]|].
+    + destruct ev as [|n|]; try (injection H as _ _ _ <-; cbn [length]; lia).
+      destruct ((N.min n (lenN f) =? 0) && negb (is_nil f)); [injection H as _ _ _ <-; cbn [length]; lia|].
+      apply IH in H. cbn [length]. destruct H as [(-> & ->)|H]; cbn [length]; lia.
+    + destruct ev as [|n|]; injection H as _ _ _ <-; cbn [length]; lia.
+Qed.
+
+Lemma flush_all_fuel : forall fuel fuel' script w sent np,
+  (length script < fuel)%nat -> (length script < fuel')%nat ->
+  flush_all fuel script w sent np = flush_all fuel' script w sent np.
+Proof.
+  induction fuel as [|fu IH]; intros fuel' script w sent np H1 H2; [lia|].
+  destruct fuel' as [|fu']; [lia|]. cbn [flush_all].
+  destruct (flush script w sent) as [[[r w1] s1] sc1] eqn:E.
+  destruct r; try reflexivity. destruct (is_nil sc1) eqn:Hn; [reflexivity|].
+  apply flush_consumes in E. destruct E as [(_ & ->)|E]; [discriminate|]. apply IH; lia.
 Qed.
